@@ -71,7 +71,16 @@ def run_impl(cases):
         return list(ex.map(run_one, cases))
 
 
+PKIND = {"mh": 0, "gibbs": 0, "nuts": 2}
+
+
 def coq_term(case, out):
+    if case["op"] == "worker" and "rows_flat" in out and case["drop"] != "during":
+        return "worker_eval %s %s %d" % (C.natlit(case["n"]), C.natlit(case["d"]), 1 if case["drop"] == "after" else 0)
+    if case["op"] == "progress_eq" and case["kind"] in PKIND and "same_draws" in out:
+        k, n, d = PKIND[case["kind"]], case["n"], case["d"]
+        return "progress_idx %s %s %s ++ real_idx %s %s %s" % (
+            C.natlit(k), C.natlit(n), C.natlit(d), C.natlit(k), C.natlit(n + 1 if k == 2 else n), C.natlit(d))
     if case["op"] != "reporter" or "ticks" not in out:
         return None
     snaps = [t["recent"] for t in out["ticks"] if t["phase"] == 0]
@@ -81,6 +90,24 @@ def coq_term(case, out):
 
 def compare(case, out, model):
     if model is None:
+        return None
+    if case["op"] == "worker":
+        n, d = case["n"], case["d"]
+        exp_state, exp_rows, msgs = model[:3], model[3:3 + 3 * n], model[3 + 3 * n:]
+        if out["final"] != exp_state or out["rows_flat"] != exp_rows:
+            return "run_chain_progress on the counting chain: rows/final state %s / %s, Model.Reporter.run_chain_progress_impl gives %s / %s" % (
+                out["rows_flat"][:9], out["final"], exp_rows[:9], exp_state)
+        delivered = [msgs[i] for i in range(0, len(msgs), 2) if msgs[i + 1] == 1]
+        if out["msgs"] != delivered:
+            return "messages received %s, model's delivered messages %s" % (out["msgs"], delivered)
+        return None
+    if case["op"] == "progress_eq":
+        n = case["n"]
+        prog, run = model[:n + 1], model[n + 1:]
+        same_model = (prog[:n] == run[1:n + 1]) if case["kind"] == "nuts" else (prog == run)
+        if same_model != bool(out["same_draws"]):
+            return ("progress mode %s the draws of run() on the implementation, but the models' recorded transition counts are "
+                    "progress %s vs run %s" % ("returns" if out["same_draws"] else "does not return", prog, run))
         return None
     exp = []
     for t in out["ticks"]:
